@@ -8,3 +8,15 @@ import IbicusModel.Props.C13
 #print axioms Props.C13.no_failsafe_propagates
 #print axioms Props.C13.no_failsafe_propagates_parallel
 #print axioms Props.C13.no_failsafe_parallel_first_completed
+#print axioms Props.C13.failsafe_flag_irrelevant_serial
+#print axioms Props.C13.failsafe_flag_irrelevant
+#print axioms Props.C13.deltachange_failsafe_isolates
+#print axioms Props.C13.debiaser_failsafe_isolates
+#print axioms Props.C13.failsafe_isolates_chunked
+#print axioms Props.C13.failsafe_isolates_stateful_serial
+#print axioms Props.C13.no_failsafe_no_array_chunked
+#print axioms Props.C13.dispatch_forwards_failsafe
+#print axioms Props.C13.catch_wrapper_statements
+-- tier A: dispatch table and map-function statements regenerated from the source = model
+#print axioms Lemmas.GenGridDispatch.paths
+#print axioms Lemmas.GenGridDispatch.facts
